@@ -124,7 +124,7 @@ theorem isEntry_iff_partial (specs : List CodeId) (s : Site) (hok : specsOk spec
     (hd : entryDomain specs s = true) : isEntry specs s = true ↔ ShouldIdentify specs s := by
   simp only [entryDomain, Bool.and_eq_true, beq_iff_eq, Bool.or_eq_true, Bool.not_eq_true', List.all_eq_true] at hd
   obtain ⟨⟨hk, hf⟩, hs⟩ := hd
-  have key : ∃ cid : CodeId, entryCids true (factsOf s) = [cid] ∧ possibleCallees s = [s.callee] ∧
+  have key : ∃ cid : CodeId, entryCids true s.aliasPrefix (factsOf s) = [cid] ∧ possibleCallees s = [s.callee] ∧
       ∀ sp ∈ specs, (Matches sp cid ↔ Matches sp (truthCid s s.callee)) := by
     rcases hf with ⟨⟨hform, hat⟩, hr⟩ | hform
     · refine ⟨{ ctx := s.parent, pkg := s.callee.pkgPath, meth := s.callee.name }, ?_, ?_, ?_⟩
@@ -187,7 +187,7 @@ def invokeSite : Site :=
   { form := .invoke, kind := .call, parent := "p.main", instr := "invoke t3.Get()", reg := "t3",
     callee := { pkgPath := "p/lib", name := "Get", recv := "Getter" }, ifaceType := "p/lib.Getter" }
 
-example : entryCids true (factsOf invokeSite) = [{ ctx := "p.main", pkg := "p/lib", meth := "Get", recv := "t3" }] := by
+example : entryCids true "package " (factsOf invokeSite) = [{ ctx := "p.main", pkg := "p/lib", meth := "Get", recv := "t3" }] := by
   decide
 
 /-- calls through function values are identified only by alias identifiers `{Package: "package <path>"}` without
@@ -196,7 +196,7 @@ def funcValueSite : Site :=
   { form := .funcValue, kind := .call, parent := "p.main", instr := "t6()", reg := "t6",
     callee := { pkgPath := "", name := "" }, impls := [{ pkgPath := "p", name := "source" }] }
 
-example : entryCids true (factsOf funcValueSite) = [{ pkg := "package p", meth := "source" }] := by decide
+example : entryCids true "package " (factsOf funcValueSite) = [{ pkg := "package p", meth := "source" }] := by decide
 
 /-- bound methods, method expressions and generic instances yield no identifier at the call (the wrapper has no
 package); the call inside the `$bound` / `$thunk` wrapper is the one that is identified -/
@@ -204,7 +204,7 @@ def boundSite : Site :=
   { form := .boundMethod, kind := .call, parent := "p.main", instr := "t7()", reg := "t7",
     callee := { pkgPath := "p", name := "Src", recv := "T" }, wrapperName := "Src$bound" }
 
-example : entryCids true (factsOf boundSite) = [] := by decide
+example : entryCids true "package " (factsOf boundSite) = [] := by decide
 
 /-- **Full statement** (sinks, sanitizers, validators on a call with a resolved callee). -/
 def isSink_iff_statement : Prop :=
